@@ -75,6 +75,8 @@ STR = r'"(?:[^"\\]|\\.)*"'
 
 # (rule id, name, regex, replacement (str with \1 refs or callable))
 TABLE = [
+    ('R14', 'bitflags `a.layers_enabled ^= b` -> `a.layers_enabled.toggle(b)`',
+     re.compile(r'([\w.]+\.layers_enabled)\s*\^=\s*([^;]+);'), r'\1.toggle(\2);'),
     ('R14', 'bitflags `a.layers_enabled |= b` -> `a.layers_enabled.insert(b)` (bitflags: `|=` is the union, i.e. insert)',
      re.compile(r'([\w.]+\.layers_enabled)\s*\|=\s*([^;]+);'), r'\1.insert(\2);'),
     ('R6', 'drop eprintln/println', re.compile(r'\b(?:e?println)!\s*\((?:[^()"]|' + STR + r'|\((?:[^()"]|' + STR + r')*\))*\)\s*;'), ''),
